@@ -950,7 +950,8 @@ impl TypeEntry {
             // and the variant itself. Any key that is seen multiple times has
             // a value of None. The key is the type as rendered rather than
             // its ID: distinct IDs can render to the same Rust type (a set
-            // and an array of the same item type are both `Vec<T>`), and two
+            // and an array of the same item type are both `Vec<T>`, the
+            // former spelled `Vec`, the latter `::std::vec::Vec`), and two
             // `From` impls for one type conflict.
             // TODO this requires more consideration to handle single-item
             // tuples.
@@ -961,6 +962,7 @@ impl TypeEntry {
                     .unwrap()
                     .type_ident(type_space, &None)
                     .to_string()
+                    .replace(":: std :: vec :: Vec", "Vec")
             };
             let unique_variants =
                 variants
